@@ -157,6 +157,9 @@ theories/Generated/C08_gen.vos theories/Generated/C08_gen.vok theories/Generated
 theories/Props/C01.vo theories/Props/C01.glob theories/Props/C01.v.beautified theories/Props/C01.required_vo: theories/Props/C01.v theories/Base/Prelude.vo theories/Base/Bytes.vo theories/Event/Hash.vo theories/Event/Hash_proofs.vo theories/Generated/C01_gen.vo
 theories/Props/C01.vio: theories/Props/C01.v theories/Base/Prelude.vio theories/Base/Bytes.vio theories/Event/Hash.vio theories/Event/Hash_proofs.vio theories/Generated/C01_gen.vio
 theories/Props/C01.vos theories/Props/C01.vok theories/Props/C01.required_vos: theories/Props/C01.v theories/Base/Prelude.vos theories/Base/Bytes.vos theories/Event/Hash.vos theories/Event/Hash_proofs.vos theories/Generated/C01_gen.vos
+theories/Props/C02.vo theories/Props/C02.glob theories/Props/C02.v.beautified theories/Props/C02.required_vo: theories/Props/C02.v theories/Base/Prelude.vo theories/Parse/XmlText.vo theories/Parse/XmlText_proofs.vo
+theories/Props/C02.vio: theories/Props/C02.v theories/Base/Prelude.vio theories/Parse/XmlText.vio theories/Parse/XmlText_proofs.vio
+theories/Props/C02.vos theories/Props/C02.vok theories/Props/C02.required_vos: theories/Props/C02.v theories/Base/Prelude.vos theories/Parse/XmlText.vos theories/Parse/XmlText_proofs.vos
 theories/Props/C03.vo theories/Props/C03.glob theories/Props/C03.v.beautified theories/Props/C03.required_vo: theories/Props/C03.v theories/Base/Prelude.vo theories/Base/Regex.vo theories/Valid/Gate.vo theories/Valid/Gate_proofs.vo
 theories/Props/C03.vio: theories/Props/C03.v theories/Base/Prelude.vio theories/Base/Regex.vio theories/Valid/Gate.vio theories/Valid/Gate_proofs.vio
 theories/Props/C03.vos theories/Props/C03.vok theories/Props/C03.required_vos: theories/Props/C03.v theories/Base/Prelude.vos theories/Base/Regex.vos theories/Valid/Gate.vos theories/Valid/Gate_proofs.vos
@@ -193,6 +196,12 @@ theories/Props/C13.vos theories/Props/C13.vok theories/Props/C13.required_vos: t
 theories/Props/C14.vo theories/Props/C14.glob theories/Props/C14.v.beautified theories/Props/C14.required_vo: theories/Props/C14.v theories/Base/Prelude.vo theories/Parse/Dispatch.vo theories/Parse/Dispatch_proofs.vo
 theories/Props/C14.vio: theories/Props/C14.v theories/Base/Prelude.vio theories/Parse/Dispatch.vio theories/Parse/Dispatch_proofs.vio
 theories/Props/C14.vos theories/Props/C14.vok theories/Props/C14.required_vos: theories/Props/C14.v theories/Base/Prelude.vos theories/Parse/Dispatch.vos theories/Parse/Dispatch_proofs.vos
+theories/Parse/XmlText.vo theories/Parse/XmlText.glob theories/Parse/XmlText.v.beautified theories/Parse/XmlText.required_vo: theories/Parse/XmlText.v theories/Base/Prelude.vo
+theories/Parse/XmlText.vio: theories/Parse/XmlText.v theories/Base/Prelude.vio
+theories/Parse/XmlText.vos theories/Parse/XmlText.vok theories/Parse/XmlText.required_vos: theories/Parse/XmlText.v theories/Base/Prelude.vos
+theories/Parse/XmlText_proofs.vo theories/Parse/XmlText_proofs.glob theories/Parse/XmlText_proofs.v.beautified theories/Parse/XmlText_proofs.required_vo: theories/Parse/XmlText_proofs.v theories/Base/Prelude.vo theories/Parse/XmlText.vo
+theories/Parse/XmlText_proofs.vio: theories/Parse/XmlText_proofs.v theories/Base/Prelude.vio theories/Parse/XmlText.vio
+theories/Parse/XmlText_proofs.vos theories/Parse/XmlText_proofs.vok theories/Parse/XmlText_proofs.required_vos: theories/Parse/XmlText_proofs.v theories/Base/Prelude.vos theories/Parse/XmlText.vos
 theories/Parse/Safe.vo theories/Parse/Safe.glob theories/Parse/Safe.v.beautified theories/Parse/Safe.required_vo: theories/Parse/Safe.v theories/Base/Prelude.vo
 theories/Parse/Safe.vio: theories/Parse/Safe.v theories/Base/Prelude.vio
 theories/Parse/Safe.vos theories/Parse/Safe.vok theories/Parse/Safe.required_vos: theories/Parse/Safe.v theories/Base/Prelude.vos
